@@ -1,1 +1,5 @@
-//! Hooks for property C28 (empty unless needed).
+//! Hooks for property C28: wrapper for the net-report client's report history.
+pub use crate::net_report::{
+    Probe, RelayLatencies, Report,
+    verif_hooks::{ReportHistory, latencies_update},
+};
